@@ -40,7 +40,7 @@ fn dispatch(case: &Sexp) -> Option<Sexp> {
         }
         "threads" => c18::run(head, args),
         "list-exec" | "list-ffi" | "list-name" | "list-history" => c17::run(head, args),
-        "panic-prog" | "panic-2threads" => c19::run(head, args, case),
+        "panic-prog" | "panic-2threads" | "panic-free" => c19::run(head, args, case),
         "ffi-history" | "ffi-2threads" | "cstring-history" => c20::run(head, args),
         "exec" => lang::run_exec(args),
         "exec-value" => lang::run_exec_value(args),
